@@ -35,6 +35,9 @@ def make_case(tier, seed, index):
         from av import corpus
 
         case = corpus.make_case(rng, max_steps=24 if tier == "quick" else 50)
+        if index % 64 == 7:
+            # a model without any compartment has an empty saved state, which can be saved, exported, loaded and restarted too
+            case.update({"framework": "tests/framework_par_min_max_test.xlsx", "databook": None, "progbook": None, "mode": "mild"})
         case["dt"] = float(DYADIC[int(rng.integers(0, len(DYADIC)))])
         case["steps"] = max(case["steps"], 4)
         case["prog_start_step"] = float(int(case["prog_start_step"]))
@@ -42,7 +45,7 @@ def make_case(tier, seed, index):
         chain = [k1]
         if rng.random() < 0.4 and case["steps"] - k1 >= 2:
             chain.append(int(rng.integers(1, case["steps"] - k1)) if rng.random() < 0.8 else 0)
-        case.update({"kind": "restart-corpus", "chain": chain, "spreadsheet": bool(rng.random() < 0.4)})
+        case.update({"kind": "restart-corpus", "chain": chain, "spreadsheet": bool(rng.random() < 0.4 or index % 64 == 7)})
         return case
     dts = DYADIC if rng.random() < 0.7 else gen.DTS
     pf = {"dts": dts, "p_targetable": 0.5, "steps": (6, 24), "p_timed": 0.5, "p_offgrid_end": 0.0, "p_junction_init": 0.5}
